@@ -27,7 +27,9 @@ open Dawn.Build Driver
 
 def M : Nat := 2305843009213693951
 
-def mix (xs : List Nat) : Nat := xs.foldl (fun h x => (h * 1000003 + x + 1) % M) 7
+/-- not linear in its inputs: file contents are themselves `mix` values, and with a linear hash a change of a code
+id in a body and the opposite change in the body of what it reads cancel out systematically -/
+def mix (xs : List Nat) : Nat := xs.foldl (fun h x => (h * 1000003 + (x + 1) * (x + 1) + x + 1) % M) 7
 
 def mixVal : SrcVal → Nat
   | .missing => mix [1]
